@@ -106,9 +106,28 @@ func checkNested(m map[string]interface{}) *finding {
 				f = &finding{"flatten-panic", "flattening and rebuilding never panic", fmt.Sprintf("map %v: %v", m, p)}
 			}
 		}()
+		before := fmt.Sprint(m)
 		flat, err := plainmap.RecursiveMapToPlainMap(m)
 		if err != nil {
 			f = &finding{"flatten-error", "flattening a nested map succeeds", fmt.Sprintf("map %v: %v", m, err)}
+			return
+		}
+		if fmt.Sprint(m) != before {
+			f = &finding{"flatten-changed-its-input", "flattening leaves the nested map unchanged", fmt.Sprintf("map was %s, is %v", before, m)}
+			return
+		}
+		// a second call (after the first result was scribbled over) gives the same flat map
+		keep := map[string]interface{}{}
+		for k, v := range flat {
+			keep[k] = v
+		}
+		for k := range flat {
+			flat[k] = "#scribble#"
+		}
+		flat["#extra#"] = 1
+		flat, err = plainmap.RecursiveMapToPlainMap(m)
+		if err != nil || !reflect.DeepEqual(flat, keep) {
+			f = &finding{"flatten-not-repeatable", "flattening is a function of its argument", fmt.Sprintf("map %v: first call %v, second call (after the first result was modified) %v (%v)", m, keep, flat, err)}
 			return
 		}
 		back, err := plainmap.ToRecursiveMap(flat)
@@ -234,10 +253,22 @@ func checkDoc(doc string) *finding {
 			}
 		}()
 		var e error
-		got, e = plainmap.JSONToPlainStringMap([]byte(doc))
+		in := []byte(doc)
+		got, e = plainmap.JSONToPlainStringMap(in)
 		if e != nil {
 			perr = "error: " + e.Error()
+			return
 		}
+		if string(in) != doc {
+			perr = "the input bytes were modified: " + string(in)
+			return
+		}
+		// the result is a snapshot: wiping the caller's buffer and converting another document
+		// afterwards must not change it
+		for i := range in {
+			in[i] = '#'
+		}
+		plainmap.JSONToPlainStringMap([]byte(`{"zz":{"zz":"other \"document\""},"a":"ZZZZZZZZ"}`))
 	}()
 	if perr != "" {
 		return &finding{"json-read-failed", "reading a JSON object into a flat string map succeeds", fmt.Sprintf("document %s: %s", doc, perr)}
